@@ -30,7 +30,7 @@ ASSUMPTIONS = [
     'FermiHubbardModel parameters are valid (constructor ValueErrors are not explored)',
 ]
 OPEN_STATEMENTS = [
-    'hubbard_sound is proved for the spinless and spinful fermi_hubbard and for the bose_hubbard Model for ALL lattice sizes (spinless_hubbard_sound / spinless_hubbard_sound_edges / spinless_hubbard_sound_spec [matrix elements of the Spec action, no hypothesis on the functional] / spinful_hubbard_sound + spin_site_terms / bose_hubbard_sound: den phi of the site-loop fold = docstring formula summed over the Spec edge set) under the hypotheses ExactSum (every += in the exact regime; DISCHARGED for couplings on a grid (1/D) Z[i] with tol * D <= 1, i.e. all generated dyadic couplings: exact_regime_of_grid, spinless_hubbard_sound_spec_grid, spinful_hubbard_sound_grid have no += hypothesis left [no particle-hole shift]; for the particle-hole form and bose_hubbard it remains a hypothesis checked by the correspondence run), real hopping amplitude, phi(n_i n_j) = phi(n_j n_i) (spinless only, discharged for the Spec matrix elements; the spinful and bose theorems hold for every phi); mean_field_dwave, FermiHubbardModel and the particle-hole docstring form are still covered by the docstring / spec.eq oracles only; also proved for all sizes: the bond enumerations equal the Spec edge set, every generated term has zero charge for N (and S_z where conserved) and zero-charge terms preserve the Spec weight of basis states, the grid index bijection, all_points_indices = the tuples inside the grid each once with orbital_id a bijection onto range(num_points) (all_points_spec, all_points_orbital_bijection), one number operator per orbital in the spinless plane_wave_kinetic loop (plane_wave_kinetic_structure_spec)',
+    'hubbard_sound is proved for the spinless and spinful fermi_hubbard and for the bose_hubbard Model for ALL lattice sizes (spinless_hubbard_sound / spinless_hubbard_sound_edges / spinless_hubbard_sound_spec [matrix elements of the Spec action, no hypothesis on the functional] / spinful_hubbard_sound + spin_site_terms / bose_hubbard_sound: den phi of the site-loop fold = docstring formula summed over the Spec edge set) under the hypotheses ExactSum (every += in the exact regime; DISCHARGED for couplings on a grid (1/D) Z[i] with tol * D <= 1, i.e. all generated dyadic couplings: exact_regime_of_grid, spinless_hubbard_sound_spec_grid, spinful_hubbard_sound_grid have no += hypothesis left; with tol * 4D <= 1 also the particle-hole form and bose_hubbard: hubbard_exact_regime_of_grid, bose_hubbard_sound_grid, spinful_hubbard_sound_grid_phs), real hopping amplitude, phi(n_i n_j) = phi(n_j n_i) (spinless only, discharged for the Spec matrix elements; the spinful and bose theorems hold for every phi); mean_field_dwave, FermiHubbardModel and the particle-hole docstring form are still covered by the docstring / spec.eq oracles only; also proved for all sizes: the bond enumerations equal the Spec edge set, every generated term has zero charge for N (and S_z where conserved) and zero-charge terms preserve the Spec weight of basis states, the grid index bijection, all_points_indices = the tuples inside the grid each once with orbital_id a bijection onto range(num_points) (all_points_spec, all_points_orbital_bijection), one number operator per orbital in the spinless plane_wave_kinetic loop (plane_wave_kinetic_structure_spec)',
     'hermitian_generators is proved for the spinless and the spinful fermi_hubbard Model (spinless_hubbard_hermitian, spinful_hubbard_hermitian on Spec matrix elements, same hypotheses as hubbard_sound, real t / U / mu); for the other generators it is covered by the spec.eq / dictionary oracles only',
     'onsite edge type and spin_pairs_iter: proved (site_pairs_onsite_spec, spin_pairs_spec); S_z and N_up / N_down conservation of FermiHubbardModel on spinful lattices: proved for every parameter set (fermi_hubbard_model_conserves_spin_resolved / _sz / _spin_species / fermi_hubbard_model_preserves_sz)',
     'su2_relations for all n: oracle only (n <= 3)',
